@@ -472,8 +472,10 @@ def prepInputs (h : Heap) (userTensors : List Nat) (parent : Option Nat) : Heap 
       -- a view being disconnected from its base keeps reporting the gradient it reports now (a copy of it)
       let h := if pt.base.isSome ∧ pt.creator.isNone then
           let (h, g) := gradPropObj h.fuel h p
-          h.modT p fun t => { t with base := none, grad := g.map (·.1), gradObj := (g.map (·.2)).getD t.gradObj,
-                                      viewGrad := none }
+          -- (`np.copy`: the kept gradient is a new ndarray object.  Its identity is the tensor's own id: every id
+          -- comes from the one counter, so no gradient object stored by `storeGrads` — whose ids are fresh — can have it,
+          -- and a tensor is disconnected at most once)
+          h.modT p fun t => { t with base := none, grad := g.map (·.1), gradObj := p, viewGrad := none }
         else h
       let pt := h.t p
       (h, some (pt.base.getD p))
